@@ -1,115 +1,10 @@
-(* C10_explog.v — quaternion logarithm / exponential / power on unit, non-real quaternions.
-     log q       = (0, u * acos w),  u = v/|v|
-     exp (log q) = q                               (through .logarithm/.exponential and .log/.exp)
-     q ** a      = (cos (a t), u sin (a t)),  t = acos w      [same axis, a times the angle]
-   hence q**1 = q, q**0 = 1 and q**a * q**b = q**(a+b) (Hamilton product). *)
+(* C10_explog.v — logarithm, exp o log = id and the real power of unit non-real quaternions (see C10_expdefs.v). *)
 From Coq Require Import Reals List Lra.
 From AhrsLib Require Import Base Rot Atan2.
 From AhrsGen Require Import C10gen_R.
+From AhrsProps Require Import C10_expdefs.
 Import ListNotations.
 Open Scope R_scope.
-
-Definition nv3 (x y z : R) : R := sqrt (x * x + y * y + z * z).
-Definition unitq4 (w x y z : R) : Prop := w * w + x * x + y * y + z * z = 1.
-Definition nonreal (x y z : R) : Prop := 0 < x * x + y * y + z * z.
-
-(* (cos k, u sin k): the rotation about the unit axis u by the angle 2k *)
-Definition versor_of (ux uy uz k : R) : list R := [cos k; ux * sin k; uy * sin k; uz * sin k].
-
-Lemma versor_of_mul ux uy uz j k : ux*ux + uy*uy + uz*uz = 1 ->
-  qmul (versor_of ux uy uz j) (versor_of ux uy uz k) = versor_of ux uy uz (j + k).
-Proof.
-  intros Hu. unfold versor_of. unfold_rot. rewrite cos_plus, sin_plus. orient_unit. list_eq; hring.
-Qed.
-
-Lemma versor_of_0 ux uy uz : versor_of ux uy uz 0 = qone.
-Proof. unfold versor_of, qone. rewrite cos_0, sin_0. list_eq; ring. Qed.
-
-Lemma versor_of_unit ux uy uz k : ux*ux + uy*uy + uz*uz = 1 -> qnorm2 (versor_of ux uy uz k) = 1.
-Proof.
-  intros Hu. unfold versor_of, qnorm2. cbv [e List.nth]. pose proof (sin2_cos2 k) as H. unfold Rsqr in H.
-  replace (cos k * cos k + ux * sin k * (ux * sin k) + uy * sin k * (uy * sin k) + uz * sin k * (uz * sin k))
-    with (cos k * cos k + sin k * sin k * (ux*ux + uy*uy + uz*uz)) by ring.
-  rewrite Hu. lra.
-Qed.
-
-(* a unit non-real quaternion is (cos t, u sin t) with t = acos w in (0, PI) and sin t = |v| *)
-Lemma polar_of_unit w x y z : unitq4 w x y z -> nonreal x y z ->
-  0 < acos w < PI /\ cos (acos w) = w /\ sin (acos w) = nv3 x y z /\ 0 < nv3 x y z.
-Proof.
-  unfold unitq4, nonreal, nv3. intros Hq Hv.
-  assert (Hw : -1 < w < 1) by nra.
-  assert (Hn0 : 0 < sqrt (x * x + y * y + z * z)) by (apply sqrt_lt_R0; exact Hv).
-  pose proof (acos_bound w) as [B1 B2].
-  assert (C : cos (acos w) = w) by (apply cos_acos; lra).
-  assert (S : sin (acos w) = sqrt (x * x + y * y + z * z)).
-  { rewrite sin_acos by lra. f_equal. unfold Rsqr. lra. }
-  repeat split; try assumption.
-  - destruct (Req_dec (acos w) 0) as [E|NE]; [|lra]. rewrite E, cos_0 in C. lra.
-  - destruct (Req_dec (acos w) PI) as [E|NE]; [|lra]. rewrite E, cos_PI in C. lra.
-Qed.
-
-(* ---- shared preparation: unit norm is inert, abstract the unit axis ----------------------- *)
-Ltac prep w x y z Hq Hv :=
-  unfold unitq4, nonreal in Hq, Hv;
-  cbv zeta;
-  replace (w * w + x * x + y * y + z * z) with 1 by (rewrite <- Hq; ring); rewrite sqrt_1; gate_01;
-  unfold Rdiv; rewrite ?Rinv_1, ?Rmult_1_r;
-  replace (w * w + x * x + y * y + z * z) with 1 by (rewrite <- Hq; ring); rewrite ?sqrt_1;
-  replace (1 - 1) with 0 by ring; rewrite ?Rabs_R0;
-  let Hn0 := fresh "Hn0" in let Hn := fresh "Hn" in let Hu := fresh "Hu" in
-  assert (Hn0 : 0 < sqrt (x * x + y * y + z * z)) by (apply sqrt_lt_R0; exact Hv);
-  assert (Hn : sqrt (x * x + y * y + z * z) * sqrt (x * x + y * y + z * z) = x * x + y * y + z * z) by (apply sqrt_sqrt; lra);
-  set (nv := sqrt (x * x + y * y + z * z)) in *;
-  assert (Hu : (x * / nv) * (x * / nv) + (y * / nv) * (y * / nv) + (z * / nv) * (z * / nv) = 1)
-    by (replace (x * / nv * (x * / nv) + y * / nv * (y * / nv) + z * / nv * (z * / nv)) with ((x*x + y*y + z*z) / (nv * nv)) by (field; lra);
-        rewrite <- Hn; field; lra);
-  set (ux := x * / nv) in *; set (uy := y * / nv) in *; set (uz := z * / nv) in *.
-
-Ltac kill_if_false := match goal with |- (if Req_EM_T ?a ?b then _ else _) = _ => destruct (Req_EM_T a b) as [?E|_]; [exfalso; lra|] end.
-Ltac kill_gate_true := match goal with |- (if Rle_dec ?a ?b then _ else _) = _ => destruct (Rle_dec a b) as [_|?N]; [|exfalso; lra] end.
-
-(* one leaf of the exponential of the pure quaternion K*u (K = the real multiplying the unit axis) *)
-Ltac rf := first [ring | field].
-Ltac hr Hu0 := first [ring [Hu0] | field_simplify_eq; ring [Hu0]].
-
-Ltac k_nonzero K ux uy uz :=
-  first [ lra
-        | let Z := fresh "Z" in intros Z;
-          match goal with N : 0 <> ?p |- _ =>
-            apply N; first [replace p with (K * ux) by rf | replace p with (K * uy) by rf | replace p with (K * uz) by rf];
-            rewrite Z; rf end ].
-
-Ltac exp_leaf K ux uy uz Hu0 :=
-  lazymatch goal with
-  | |- Raise _ = _ =>
-      exfalso;
-      match goal with E : 0 = sqrt ?e |- _ =>
-        let H := fresh in assert (H : e = K * K) by (hr Hu0); rewrite H, sqrt_sq_abs in E; clear H;
-        let HK := fresh "HK" in assert (HK : K <> 0) by (k_nonzero K ux uy uz);
-        apply HK; revert E; unfold Rabs; destruct (Rcase_abs K); lra
-      end
-  | |- Val [1; 0; 0; 0] = _ =>
-      let Z := fresh "Z" in
-      assert (Z : K = 0)
-        by (match goal with E1 : 0 = ?p1, E2 : 0 = ?p2, E3 : 0 = ?p3 |- _ =>
-              replace K with (p1 * ux + p2 * uy + p3 * uz) by (hr Hu0); rewrite <- E1, <- E2, <- E3; rf end);
-      first [ exfalso; lra | rewrite Z, cos_0, sin_0; val_eq; ring ]
-  | |- Val _ = _ =>
-      match goal with |- context [sqrt ?e] =>
-        let H := fresh in assert (H : e = K * K) by (hr Hu0); rewrite H in *; clear H end;
-      rewrite sqrt_sq_abs in *;
-      let HK := fresh "HK" in
-      assert (HK : K <> 0) by (let Z := fresh "Z" in intros Z; match goal with N : 0 <> Rabs K |- _ => apply N; rewrite Z, Rabs_R0; reflexivity end);
-      destruct (Rtotal_order K 0) as [Kn|[Kz|Kp]]; [|exfalso; exact (HK Kz)|];
-      [rewrite (Rabs_left K Kn), cos_neg, sin_neg | rewrite (Rabs_right K) by lra];
-      repeat match goal with |- context [?p * / _] =>
-        progress (first [replace p with (K * ux) by rf | replace p with (K * uy) by rf | replace p with (K * uz) by rf]) end;
-      let k := fresh "k" in set (k := K) in *; clearbody k;
-      val_eq; try reflexivity; field; lra
-  end.
-
-Ltac split_all := repeat match goal with |- (if Req_EM_T ?a ?b then _ else _) = _ => destruct (Req_EM_T a b) as [?E|?N] end.
 
 (* ---- logarithm ----------------------------------------------------------------------------- *)
 Lemma log_q_spec w x y z : unitq4 w x y z -> nonreal x y z ->
@@ -161,23 +56,6 @@ Proof.
   - subst w. rewrite acos_0 in *.
     split_all; exp_leaf (PI / 2) ux uy uz Hu0.
   - split_all; exp_leaf (acos w) ux uy uz Hu0.
-Qed.
-
-(* ---- powers ---------------------------------------------------------------------------------- *)
-Lemma pow_spec w x y z a : unitq4 w x y z -> nonreal x y z ->
-  C10_pow_R w x y z a = Val (versor_of (x / nv3 x y z) (y / nv3 x y z) (z / nv3 x y z) (a * acos w)).
-Proof.
-  intros Hq Hv. unfold C10_pow_R, versor_of, nv3.
-  pose proof (polar_of_unit w x y z Hq Hv) as ((T1 & T2) & PC & PS & _); unfold nv3 in PS.
-  prep w x y z Hq Hv.
-  kill_if_false. kill_gate_true.
-  assert (Hu0 : ux * ux = 1 - uy * uy - uz * uz) by lra.
-  clearbody ux uy uz.
-  pose proof PI_RGT_0.
-  destruct (Req_EM_T 0 w) as [E0|N0].
-  - subst w. rewrite acos_0 in *.
-    split_all; exp_leaf (a * (PI / 2)) ux uy uz Hu0.
-  - split_all; exp_leaf (a * acos w) ux uy uz Hu0.
 Qed.
 
 Example explog_nonvacuous : unitq4 (1/2) (1/2) (1/2) (1/2) /\ nonreal (1/2) (1/2) (1/2) /\ unitq4 0 (3/5) 0 (4/5).
